@@ -12,11 +12,11 @@ NA = {}  # property id -> reason (genuinely not applicable)
 TECH = {}
 THOROUGH = {
     "C01": "every selection of the six AMR variables (64) and of the variables of each mesh reader (3 x 8) in the body fold; Loader.load over 324 scenarios",
-    "C02": "every arithmetic and in-place operator over all ordered pairs of 15 units, on physical values",
+    "C02": "every arithmetic and in-place operator over all ordered pairs of 15 units, on physical values; the complete product probe x mutator x probe of the Array history fold (about 4 600 operation sequences)",
     "C03": "map() over 60 scenarios (thin/thick x ordered pairs of layer operations x resolution forms)",
     "C04": "Loader.load over 324 scenarios (ndim x ncpu x levelmax x nboundary x level predicate x cpu_list)",
     "C06": "every sequence of up to 3 dictionary operations on a fresh Datagroup against a reference dictionary with the insertion gate (1884 sequences)",
-    "C07": "every comparison over all ordered pairs of 15 units",
+    "C07": "every comparison over all ordered pairs of 15 units; the complete product comparison x mutator x comparison of the Array history fold",
     "C08": "Array.to and Vector.to over all ordered pairs of 15 units",
     "C09": "v op w / Array / Quantity for + - * / over all ordered pairs of 10 units and 1-3 components",
     "C10": "np.power (exponents -2..3, both orders), square, reciprocal, negative over 15 units; np.multiply / np.true_divide over all ordered unit pairs",
